@@ -190,16 +190,13 @@ func (p Params) String() string {
 
 // validateBlockReward validates the BlockReward param
 func validateBlockReward(v interface{}) error {
-	_ = v.(sdk.Coin)
-
-	return nil
+	// a negative amount makes the reward begin-blocker panic
+	return v.(sdk.Coin).Validate()
 }
 
 // validateBaseline validates the BlockReward param
 func validateBaseline(v interface{}) error {
-	_ = v.(sdk.Coin)
-
-	return nil
+	return v.(sdk.Coin).Validate()
 }
 
 func validatePeriod(v interface{}) error {
@@ -212,8 +209,15 @@ func validatePeriod(v interface{}) error {
 
 // validateAPY validates the BlockReward param
 func validateAPY(v interface{}) error {
-	_, err := sdk.NewDecFromStr(v.(string))
-	return err
+	apy, err := sdk.NewDecFromStr(v.(string))
+	if err != nil {
+		return err
+	}
+	if apy.IsNegative() {
+		// a negative yield gives a negative reward coin: the begin-blocker panics on it
+		return errors.New("invalid annual percentage yield: negative")
+	}
+	return nil
 }
 
 // validateFishmenInfo validates the Fishmen list
